@@ -177,7 +177,7 @@ def readV (t : Option String) (strings : List Txt) (v : Txt) : Step CellMode Cel
     let idx := (atoiUsize v).getD 0
     match strings[idx]? with
     | some s => .cont (.inC (.shared s))
-    | none => .panic "strings[idx]"
+    | none => .fail "Unexpected(shared string index out of range)"
   | some "str" => .cont (.inC (.str v))
   | some "inlineStr" => .fail "CellTAttribute"
   | some "is" => .fail "Unexpected"
@@ -272,10 +272,16 @@ def stripPlus : Txt → Txt
   | 43 :: rest => rest
   | s => s
 
-/-- `str::parse::<usize>`: optional `+`, then at least one digit, digits only, value < 2^64 -/
-def parseUsize (s : Txt) : Option Nat :=
-  let ds := stripPlus s
-  if ds ≠ [] ∧ ds.all isDigit ∧ digitsVal ds < 18446744073709551616 then some (digitsVal ds) else none
+/-- `str::parse::<i32>` — the type of `count` in `get_datatype` is inferred from the literal `1` of the
+    `None` arm and the range `0..count`, i.e. `i32`: optional `+` or `-`, then at least one digit, digits only,
+    value within the i32 range -/
+def parseI32 (s : Txt) : Option Int :=
+  match s with
+  | 45 :: ds =>
+    if ds ≠ [] ∧ ds.all isDigit ∧ digitsVal ds ≤ 2147483648 then some (-(digitsVal ds : Int)) else none
+  | _ =>
+    let ds := stripPlus s
+    if ds ≠ [] ∧ ds.all isDigit ∧ digitsVal ds < 2147483648 then some (digitsVal ds : Int) else none
 
 def tableCell : Name := ⟨some "table", "table-cell"⟩
 def coveredCell : Name := ⟨some "table", "covered-table-cell"⟩
@@ -305,8 +311,8 @@ def odsStep : OdsMode → Ev → Step OdsMode Txt
     else if n = textS then
       match getAttr "text:c" attrs with
       | some c =>
-        match parseUsize c with
-        | some k => .cont (.normal (s ++ List.replicate k 32) first)
+        match parseI32 c with
+        | some k => .cont (.normal (s ++ List.replicate k.toNat 32) first)     -- `for _ in 0..count`: nothing when ≤ 0
         | none => .fail "ParseInt"
       | none => .cont (.normal (s ++ [32]) first)
     else .cont (.normal s first)
